@@ -26,6 +26,7 @@ PROFILES = {
     'replica':   dict(BASE, pGuardCancel=60, pGuardIssue=40, pIssue=20, maxBatch=2, replica=1, kinds=0x4f),
     'order':     dict(BASE, pConsume=120, pGuardCancel=50, pGuardIssue=30, wReact=8, wQuery=5, wUpdate=6),
     'order-lo':  dict(BASE, pConsume=25, wReact=8, wQuery=5, wUpdate=6),
+    'serial':    dict(BASE, wSaveLoad=35, pGuardCancel=40, pGuardIssue=30, wExitEnter=2, wReset=1),
     'payload':   dict(BASE, pGuardCancel=60, pGuardIssue=100, pIssue=80, maxBatch=4),
 }
 
@@ -37,6 +38,7 @@ SHAPE_PROPS = {
     'C04': dict(profiles=['guards', 'guards-lo'], title='guards / veto / rounds'),
     'C11x': dict(profiles=['mixed'], title='asserts (temporary)'),
     'C05': dict(profiles=['order', 'order-lo'], title='delivery order'),
+    'C08': dict(profiles=['serial'], title='save/load'),
     'C09': dict(profiles=['history', 'replica', 'single'], title='history'),
     'C13': dict(profiles=['single', 'mixed'], title='queries'),
     'C14': dict(profiles=['payload'], title='payloads'),
@@ -47,10 +49,12 @@ RULES = {
     'C03': 'evaluations = API operations whose callback stream went through the lifecycle automaton; distinct_nontrivial = distinct (shape, active, resumable) configurations reached',
     'C04': 'evaluations = processing steps whose guard rounds were segmented and checked; distinct_nontrivial = distinct (shape, configuration, rounds, vetoes) with at least one vetoed round',
     'C05': 'evaluations = update()/react()/query() calls whose delivery sequence was compared with the sequence computed from the configuration; distinct_nontrivial = distinct (shape, configuration, call kind, consuming (phase,state) set)',
+    'C08': 'evaluations = save/load pairs between two independently walked instances; distinct_nontrivial = distinct (shape, destination configuration before, saved active, saved resumable) triples',
     'C09': 'evaluations = steps whose previousTransitions()/lastTransitionTo() were compared with the interpreter; distinct_nontrivial = distinct (shape, recorded history, configuration) with a non-empty history',
     'C13': 'evaluations = quiescent query checks; distinct_nontrivial = distinct (shape, configuration before, after) of single-request rounds whose isPending* vectors were compared with the enter/exit callbacks',
     'C14': 'evaluations = payload observations (guards, enter, history, lastTransition); distinct_nontrivial = distinct (shape, id tuple recorded in history)',
 }
+EVAL_KEY = {'C08': 'C08.loads', 'C05': 'C05.deliveries', 'C04': 'C04.guard-calls', 'C13': 'C13.quiescent-checks', 'C14': 'C14.payloads-seen-by-guards'}
 ASSUME = [
     'the generated machine shapes and the seeded walks are a sample, not the whole quantifier',
     'the director keeps runs inside the documented preconditions (DESIGN 2.2): select/utilize/randomize only where no anonymous head takes part, positive top-rank utility sums',
@@ -93,6 +97,10 @@ def run_job(job):
         knobs = {k: v for k, v in PROFILES[profile].items() if k in ('zeroUtil', 'palette', 'pConsume')}
         chk = check_log.Checker(sj, int(header[3]), knobs, int(header[5]), header[4] == '1')
         chk.run(ops)
+        if len(header) >= 9 and int(header[7]) >= 0:
+            exp = sj['expect']
+            if int(header[7]) != exp['SERIAL_BITS'] or int(header[8]) != exp['SERIAL_BYTES']:
+                chk.v('C08', 'size|SerialBuffer-size-differs-from-the-structure', None, {'observed-bits': header[7], 'observed-bytes': header[8], 'expected': [exp['SERIAL_BITS'], exp['SERIAL_BYTES']]})
         for sv in stray:
             if sv and isinstance(sv[0], str) and '.' in sv[0] and sv[0][0] == 'C': chk.v(sv[0].split('.')[0], 'inproc|' + sv[0].split('.', 1)[1], None, sv[1:])
         res['summary'] = check_log.summarize(chk, header, trailer, stray)
@@ -165,7 +173,7 @@ def adjudicate(V, prop, results, shapeset, flavours, extra):
             elif p == 'C00': V.harness_errors.append('%s: %s' % (r['shape'], key))
             else: V.add_other(p, k, e['count'])
         for k, v in s['stats'].items(): stats[k] = stats.get(k, 0) + v
-        evals += s['stats'].get('ops', 0)
+        evals += s['stats'].get(EVAL_KEY.get(prop, 'ops'), 0)
         for h in r['nt'].get(prop, []): nt.add(h)
         for h in r['cfg_hashes']: cfgs.add(h)
         if len(samples) < 4 and s['samples']:
